@@ -1,7 +1,7 @@
 (* Properties/C01.v — Coordination never orphans a target a healthy shard is scraping.
    Statements only; proofs are in Proofs/CoordC01.v.  Vocabulary (insync, reported, holds_after, ...)
    is that of Model/CoordCheck.v, the same terms the run-time monitor evaluates on the implementation. *)
-From KV Require Import Base.Util Base.AMap Model.Coordinator Model.CoordCheck Proofs.CoordC01.
+From KV Require Import Base.Util Base.AMap Model.Coordinator Model.CoordCheck Model.Sidecar Model.World Proofs.CoordC01 Proofs.WorldProofs Proofs.WorldNoGap.
 Local Open Scope list_scope.
 Local Open Scope Z_scope.
 
@@ -47,3 +47,13 @@ Example C01_example :
   holds_after ex_input ob 0 7%N = true /\ holds_after ex_input ob 1 7%N = false /\
   ob_posts ob = [None; Some []].
 Proof. vm_compute. repeat split. Qed.
+
+(* the same in the closed loop (World model: real sidecar semantics of a target update, StatefulSet following the scale
+   requests): one cycle with ANY faults under ANY schedule never leaves a discovered target that some sidecar holds
+   without a holder - C01's keeper, plus C08 (a shard not in sync is sent nothing), C07 (it is not scaled away) and C10
+   (an update makes the sidecar hold the body). Tied to the code by the `loop` engine (C03, C05, C06). *)
+Theorem C01_closed_loop : forall o tru w f sch h,
+  wwf w -> Z.of_nat (length (w_shards w)) <= max_shard o ->
+  In h (w_active w) -> held w h -> held (model_cycle o tru w f sch) h.
+Proof. exact cycle_no_gap. Qed.
+Print Assumptions C01_closed_loop.
